@@ -86,7 +86,7 @@ def random_script(rng, level, n, beyond=False, g=None):
     def deliver(st, num, ts):
         if st.arr is not None:
             # keep |D| below 2^23 RTP units so that D * 2^8 fits TLC's 32-bit integers
-            lim = 8000000 - (now - st.arr) * st.rate // 1000
+            lim = 8000000 - abs(now - st.arr) * st.rate // 1000      # (the arrival clock may have been stepped back)
             ts = max(st.lts - lim, min(st.lts + lim, ts))
         st.lts = ts
         st.arr = now
